@@ -229,43 +229,91 @@ def walk_nodes_(n):
     return walk_nodes(n)
 
 
-def wiring_rules(ctx, prog):
-    """W4: in reproc_start each stream's constructor call and the process_start options agree by name"""
+def constructor_calls(ctx, prog):
+    """reproc_start interpreted (helpers inlined, validation replaced by 'all three streams piped', process_start by its summary) once
+    with options.nonblocking = 0 and once with 1; every call of redirect_init is recorded with the values of its arguments, wherever
+    in the call tree it is made.  Returns [(nb, stream, dict of checks)] and the per-path construction counts."""
+    from .. import summaries as S
     F = prog.fn("reproc_start")
-    calls = [n for n in F.calls("redirect_init")]
-    seen = {}
-    for n in calls:
-        a = n["c"][1:]
-        par = field_path(a[0])
-        chi = field_path(a[1])
-        stream = strip(a[2]).get("name", "")
-        red = field_path(a[3])
-        nb = field_path(a[4])
-        out = field_path(a[5])
-        x = stream.replace("REPROC_STREAM_", "").lower()
-        ok = par is not None and par[1][-2:] == ["pipe", x] and chi is not None and chi[1][-1:] == [x] and chi[0] == "child" \
-            and red is not None and red[1][-2:] == ["redirect", x] and nb is not None and nb[1][-1:] == ["nonblocking"]
-        if x == "err":
-            ok = ok and out is not None and out[0] == "child" and out[1] == ["out"]
-        else:
-            ok = ok and strip(a[5]).get("name") == "HANDLE_INVALID"
-        seen[x] = ok
-        ctx.ob("C10.W4", "reproc_start: redirect_init(... %s ...)" % stream, "the constructor for this stream receives this stream's "
-               "parent pipe field, child end, tag and redirect option (and, for stderr, the child's stdout end)", ok,
-               {"args": [expr_str(z)[:40] for z in a]})
-    ctx.ob("C10.W4", "reproc_start: streams constructed", "stdin, stdout and stderr are each constructed exactly once",
-           sorted(seen) == ["err", "in", "out"] and len(calls) == 3, {"streams": sorted(seen)})
-    # designated initialiser of process_options.handle
-    inits = [n for n in F.walk() if n["k"] == "InitListExpr" and n.get("fields") == ["in", "out", "err", "exit"]
-             and F.nodes.get(F.parent.get(n["id"]), {}).get("k") == "InitListExpr"]
-    ok = False
-    det = None
-    for n in inits:
-        srcs = [field_path(c) for c in n["c"]]
-        det = [expr_str(c) for c in n["c"]]
-        ok = all(s is not None and s[0] == "child" and s[1] == [f] for s, f in zip(srcs, ("in", "out", "err", "exit")))
-    ctx.ob("C10.W4h", "reproc_start: process_options.handle", "the child ends reach process_start under their own names "
-           "(in, out, err, exit)", ok, {"initialiser": det})
+    PIPE = prog.const("REPROC_REDIRECT_PIPE")
+    INV = prog.const("HANDLE_INVALID")
+    names = {prog.const("REPROC_STREAM_IN"): "in", prog.const("REPROC_STREAM_OUT"): "out", prog.const("REPROC_STREAM_ERR"): "err"}
+    out = []
+    counts = []
+    handle_nb = []
+    for nb in (0, 1):
+        st = State()
+        obj = S.not_started_object(prog, F, st)
+        optc = [("v", F.gdid(p_["did"])) for p_ in F.params if p_["name"] == "options"][0]
+        st.mem[("f", optc, "nonblocking")] = fs(nb)
+        st.mon["nofail"] = True
+
+        def o_parse(I_, fn, n, args, s0):
+            s1 = s0.copy()
+            for t in [a[1] for a in args[0] if isinstance(a, tuple) and a[0] == "addr"]:
+                for x in ("in", "out", "err"):
+                    s1.mem[("f", ("f", ("f", t, "redirect"), x), "type")] = fs(PIPE)
+                s1.mem[("f", ("f", t, "input"), "data")] = fs("NULL")
+                s1.mem[("f", ("f", t, "input"), "size")] = fs(0)
+            return [(s1, fs(0))]
+
+        def hook(I_, fn, n, name, args, s0, nb=nb, obj=obj):
+            if name != "redirect_init" or len(args) < 6:
+                return None
+            x = names.get(one(args[2]))
+            chk = {"stream_tag": x is not None}
+            if x is not None:
+                chk["parent_field"] = args[0] == fs(("addr", ("f", ("f", obj, "pipe"), x)))
+                rc = one(args[3])
+                chk["redirect_option"] = isinstance(rc, tuple) and rc[0] == "addr" and rc[1][0] == "f" and rc[1][2] == x and \
+                    rc[1][1][0] == "f" and rc[1][1][2] == "redirect"
+                chk["nonblocking"] = args[4] == fs(nb)
+                cc = one(args[1])
+                if x == "err":
+                    oc = s0.mon.get("child_cell_out")
+                    chk["stdout_end"] = oc is not None and args[5] == s0.mem.get(oc) and args[5] != fs(INV)
+                else:
+                    chk["stdout_end"] = args[5] == fs(INV)
+                s1 = s0.copy()
+                s1.mon["ri_" + x] = s1.mon.get("ri_" + x, 0) + 1
+                if isinstance(cc, tuple) and cc[0] == "addr":
+                    s1.mon["child_cell_" + x] = cc[1]
+                out.append((nb, x, chk, site_of(fn, n)))
+                return s1
+            out.append((nb, "?", chk, site_of(fn, n)))
+            return None
+        ov = dict(S.HEAP_HELPERS)
+        ov["process_start"] = S.o_process_start
+        ov["parse_options"] = o_parse
+        I = new_interp(prog, overrides=ov)
+        I.hooks_call.append(hook)
+        res = I.run(F, [st])
+        ctx.stats("E-ABS", I.stats)
+        for s_, rv in res.exits:
+            if rv == fs(1) and s_.mon.get("proc") != "child":
+                counts.append(tuple(s_.mon.get("ri_" + x, 0) for x in ("in", "out", "err")))
+                handle_nb.append((nb, s_.mem.get(("f", obj, "nonblocking"))))
+    return out, counts, handle_nb
+
+
+def wiring_rules(ctx, prog):
+    """W4: each stream's constructor receives this stream's parent pipe field, tag and redirect option, the caller's nonblocking flag
+    and (stderr only) the child's stdout end - decided on the values of the arguments at every redirect_init call of an interpreted
+    reproc_start, so it does not matter whether the calls sit in reproc_start, in a helper or in a loop, or what the locals are called"""
+    F = prog.fn("reproc_start")
+    calls, counts, _ = constructor_calls(ctx, prog)
+    seen = set()
+    for nb, x, chk, site in calls:
+        key = (x, tuple(sorted(chk.items())))
+        if key in seen:
+            continue
+        seen.add(key)
+        ctx.ob("C10.W4", "redirect_init for %s (%s)" % (x, site), "the constructor for this stream receives this stream's parent pipe field, "
+               "tag and redirect option, the caller's nonblocking flag and - for stderr only - the child's stdout end", all(chk.values()),
+               {k: v for k, v in chk.items()}, nontrivial=True)
+    ctx.ob("C10.W4", "reproc_start: streams constructed", "on every successful start stdin, stdout and stderr are each constructed exactly once",
+           bool(counts) and all(c == (1, 1, 1) for c in counts), {"paths": len(counts), "counts": sorted(set(counts))[:3]}, nontrivial=True)
+    ctx.floor("C10.W4", 4)
     # semantic confirmation on the all-paths run: at the process_start call handle.X holds what the constructor for X produced
     res, Fr, I, obj = SP.reproc_start_run(ctx, prog)
     bad = 0
